@@ -985,7 +985,7 @@ fn pick_delta(r: &mut Rng) -> i64 {
 
 /// `boundary_heavy`: used when the check script raised the budget (something changed in the
 /// anchored code): almost every purge and revive sits within a second of a window's end.
-fn gen_history(r: &mut Rng, boundary_heavy: bool) -> Vec<Step> {
+fn gen_history(r: &mut Rng, boundary_heavy: bool, nested: bool) -> Vec<Step> {
     let mut sim = Sim::default();
     let mut steps: Vec<Step> = vec![];
     let mut t: u64 = NS;
@@ -1001,7 +1001,12 @@ fn gen_history(r: &mut Rng, boundary_heavy: bool) -> Vec<Step> {
     }
     let ng = r.range(1, 3) as usize;
     for g in &GROUPS[..ng] {
-        let leaves = sim.live_of(&PERSONS);
+        let mut leaves = sim.live_of(&PERSONS);
+        if nested {
+            // acyclic nesting only (a group lists groups with a lower id): the closure and its
+            // worklist are C17's subject, cycles can make apply_memberof livelock (D21)
+            leaves.extend(sim.live_of(&GROUPS).into_iter().filter(|m| m < g));
+        }
         let ms: Vec<u8> = leaves.into_iter().filter(|_| r.chance(1, 2)).collect();
         push(&mut steps, &mut sim, t, Op::Cg(*g, ms));
         t += r.range(0, 3) * NS + 1;
@@ -1105,6 +1110,15 @@ fn gen_history(r: &mut Rng, boundary_heavy: bool) -> Vec<Step> {
                         Op::Touch(r.range(1, 12) as u8)
                     } else {
                         let g = *r.pick(&gs);
+                        if nested && r.chance(1, 2) {
+                            leaves = gs.iter().copied().filter(|m| *m < g).collect();
+                            if leaves.is_empty() {
+                                leaves = sim.live_of(&PERSONS);
+                            }
+                        }
+                        if leaves.is_empty() {
+                            leaves.push(1);
+                        }
                         let m = *r.pick(&leaves);
                         if sim.members.get(&g).map(|s| s.contains(&m)).unwrap_or(false) && r.chance(2, 3) {
                             Op::Rem(g, m)
@@ -1115,16 +1129,19 @@ fn gen_history(r: &mut Rng, boundary_heavy: bool) -> Vec<Step> {
                 } else if roll < 80 {
                     // create something that does not exist (or, rarely, that does)
                     let id = r.range(1, 12) as u8;
-                    recreate_with(r, &sim, id)
+                    recreate_with(r, &sim, id, nested)
                 } else if roll < 88 {
                     // normal writes aimed at deleted entries
                     let pool: Vec<u8> = if !rec.is_empty() && r.chance(2, 3) { rec.clone() } else { (1..=12).collect() };
                     let i = *r.pick(&pool);
+                    // never a group as member here: an arbitrary group-in-group link could close a
+                    // cycle, and cycles can make apply_memberof livelock (C17 D21)
                     match r.below(4) {
                         0 => Op::Touch(i),
                         1 => Op::Del(vec![i]),
-                        2 => Op::Add(*r.pick(&GROUPS), i),
-                        _ => Op::Rem(*r.pick(&GROUPS), i),
+                        2 if !GROUPS.contains(&i) => Op::Add(*r.pick(&GROUPS), i),
+                        3 if !GROUPS.contains(&i) => Op::Rem(*r.pick(&GROUPS), i),
+                        _ => Op::Touch(i),
                     }
                 } else if roll < 94 && !live.is_empty() {
                     Op::Touch(*r.pick(&live))
@@ -1155,12 +1172,15 @@ fn recreate(id: u8) -> Op {
     }
 }
 
-fn recreate_with(r: &mut Rng, sim: &Sim, id: u8) -> Op {
+fn recreate_with(r: &mut Rng, sim: &Sim, id: u8, nested: bool) -> Op {
     if PERSONS.contains(&id) {
         Op::Cp(id)
     } else if GROUPS.contains(&id) {
         let mut leaves = sim.live_of(&PERSONS);
         leaves.extend(sim.live_of(&CERTS));
+        if nested {
+            leaves.extend(sim.live_of(&GROUPS).into_iter().filter(|m| *m < id));
+        }
         Op::Cg(id, leaves.into_iter().filter(|_| r.chance(1, 3)).collect())
     } else {
         let ps = sim.live_of(&PERSONS);
@@ -1363,8 +1383,15 @@ fn run_job(args: &Args, job: &Job) -> Report {
             for c in *from..*to {
                 let mut r = Rng::for_case(args.seed, c);
                 let heavy = args.budget > 1 && c % 4 != 0;
-                let steps = gen_history(&mut r, heavy);
-                run_case(&mut ctx, &mut drv, &mut rep, if heavy { "random-boundary-heavy" } else { "random" }, &steps, c == *from);
+                // every tenth history nests groups (acyclic): outside the model, oracle only
+                let nested = c % 10 == 9;
+                let steps = gen_history(&mut r, heavy, nested);
+                let stream = match (nested, heavy) {
+                    (true, _) => "random-nested-groups(oracle-only)",
+                    (false, true) => "random-boundary-heavy",
+                    (false, false) => "random",
+                };
+                run_case(&mut ctx, &mut drv, &mut rep, stream, &steps, c == *from);
             }
         }
     }
